@@ -16,6 +16,7 @@ import EasyMl.Model.Transform
 import EasyMl.Model.TensorChecked
 import EasyMl.Spec.Tensor
 import Driver.Parse
+import Driver.Surface
 
 namespace Driver.C01
 open EasyMl Driver
@@ -128,6 +129,12 @@ def step (s : State) (toks : List String) : State × String :=
                (match a.offset idx with
                 | some o => s!"changed={o}" | none => "none"))
     | _, _ => (s, "no-access")
-  | _ => (s, "bad-op")
+  | _ =>
+    match s.tensor with
+    | none => (s, "bad-op")
+    | some t =>
+      match Driver.Surface.step t toks with
+      | some ans => (s, ans)
+      | none => (s, "bad-op")
 
 end Driver.C01
